@@ -555,6 +555,16 @@ class CallMixin:
     v.src_arrays = getattr(view, 'src_arrays', None)
     return [Res(st, v)]
 
+  def bi_sorted(self, pos, kw, st, node):
+    """sorted(seq[, reverse=...]) of a list whose length is the constant 0 or 1: a copy."""
+    v = pos[0]
+    if z3.is_expr(v):
+      n = st.heap.len(ref(v))
+      if not self.feasible_full(st, n > 1) and not self.feasible_full(
+          st, z3.Not(z3.And(is_VRef(v), cls_in(st.heap.cls(ref(v)), 'list')))):
+        return self.list_copy(v, st, node)
+    self.unsupp('sorted() of a sequence of unknown length', node)
+
   def bi_slice(self, pos, kw, st, node):
     vals = list(pos)
     if len(vals) == 1:
